@@ -41,7 +41,6 @@ SYSINFO_H = "include/osmocom/bb/common/sysinfo.h"
 GSM48_IE_H = "include/osmocom/gsm/gsm48_ie.h"
 FUNC = "gsm48_decode_mobile_alloc"
 
-FREQ_TYPE_SERV = 0x01      # only used by the Python cross-check; the driver takes the macros from the slice
 EINVAL = 22
 
 KNAMES = ["evaluations", "distinct_nontrivial", "expect_einval", "empty_bitmap",
@@ -431,22 +430,60 @@ def _parse_v(line):
 
 
 def _check_r(line, ca, res):
-    """Cross-check one dumped result of the implementation against the Python reference."""
+    """Cross-check one dumped result of the implementation, and the driver's verdict on it, against the
+    Python reference.  -> (consistent, info)"""
     p = line.split()
     idx, length, mah, si4, bg, rc, n, lst = int(p[1]), int(p[2]), p[3], int(p[4]), int(p[5]), int(p[6]), int(p[7]), p[8]
+    hoppsum, othersum, flagged = int(p[9]), int(p[10]), int(p[11])
     ma = b"" if mah == "-" else bytes.fromhex(mah)
     wrc, want = ref_decode(ca, ma)
     got = [] if lst == "-" else [int(x) for x in lst.split(",")]
-    ok = (rc == wrc) and (wrc != 0 or got == want)
+    ok = (rc == wrc) and (wrc != 0 or (n == len(want) and got == want))
     if ok and wrc == 0:
-        hoppsum, othersum = int(p[9]), int(p[10])
         if othersum != 0:
-            ok = False
-        if si4:
-            ok = ok and hoppsum == sum(a + 1 for a in want)
-        # si4 == 0: masks unchanged -> hoppsum is the background's, checked by the driver only
+            ok = False                  # a bit other than HOPP changed
+        if si4 and hoppsum != sum(a + 1 for a in want):
+            ok = False                  # HOPP not exactly on the decoded channels
+        if not si4:
+            ok = ok and hoppsum == _bg_hoppsum(bg)
     res["pyref_checked"] += 1
-    return ok, (idx, length, mah, si4, bg, rc, got, wrc, want)
+    return ok == (not flagged), (idx, length, mah, si4, bg, rc, got, wrc, want, flagged)
+
+
+_bgsum = {}
+
+
+def _bg_hoppsum(bg):
+    """sum(i+1) over the ARFCNs whose initial mask has HOPP set (background 1 = hash noise, see drv_c20.c)"""
+    if bg not in _bgsum:
+        hopp, serv = _freq_type("FREQ_TYPE_HOPP"), _freq_type("FREQ_TYPE_SERV")
+        t = 0
+        if bg:
+            for i in range(1024):
+                noise = (((i * 2654435761) & 0xffffffff) >> 13) & 0xff & ~serv
+                if noise & hopp:
+                    t += i + 1
+        _bgsum[bg] = t
+    return _bgsum[bg]
+
+
+_ft = {}
+
+
+def _freq_type(name):
+    if not _ft:
+        with open(os.path.join(cbuild.L23, SYSINFO_H), encoding="utf-8", errors="replace") as f:
+            for n, text in slice_macros(f.read(), "FREQ_TYPE_"):
+                try:
+                    _ft[n] = int(text.split()[2], 0)
+                except (ValueError, IndexError):
+                    pass
+    if name not in _ft:
+        raise HarnessError("C20: %s is not a plain integer macro in %s" % (name, SYSINFO_H))
+    return _ft[name]
+
+
+MAX_DEATHS_PER_UNIT = 40
 
 
 def _unit(arg):
@@ -456,10 +493,10 @@ def _unit(arg):
     res = {"pyref_checked": 0}
     viol, samples = [], []
     crashes = 0
+    aborted = 0
     pyref_disagree = []
     start = 0
     prog = os.path.join(_bdir, "prog.%s.%d.%d" % (os.path.basename(spec), ca_index, os.getpid()))
-    flagged = set()
     while True:
         rc, out, err = cbuild.run(_exe, ["enum", spec, ca_index, start, prog], env=ENUM_ENV)
         out = out.decode(errors="replace")
@@ -469,12 +506,11 @@ def _unit(arg):
             if line.startswith("V "):
                 kind, kv = _parse_v(line)
                 case = {"ca": list(ca), "len": int(kv["len"]), "ma": kv["ma"], "si4": int(kv["si4"]), "bg": int(kv["bg"])}
-                flagged.add(int(kv["idx"]))
                 viol.append(("C20:len=%s:%s" % (kv["len"], kind), case,
                              "cell allocation %s, bitmap %s (len %s), si4=%s: %s" % (_short(ca), kv["ma"], kv["len"], kv["si4"], line[2:])))
             elif line.startswith("R "):
-                ok, info = _check_r(line, ca, res)
-                if not ok:
+                consistent, info = _check_r(line, ca, res)
+                if not consistent:
                     pyref_disagree.append(info)
             elif line.startswith("{"):
                 js = json.loads(line)
@@ -508,20 +544,20 @@ def _unit(arg):
         kind = _kind_from_death(rc, err)
         case = {"ca": list(ca), "len": clen, "ma": cma.hex() if clen else "-", "si4": csi4, "bg": cbg}
         viol.append(("C20:len=%d:%s" % (clen, kind), case, None))      # message made by _death_msg()
-        flagged.add(idx)
         start = idx + 1
-        if crashes > 5000:
-            raise HarnessError("C20: more than 5000 driver deaths in one unit - giving up")
+        if crashes >= MAX_DEATHS_PER_UNIT:
+            aborted = 1         # every death is already a recorded violation; do not grind through thousands
+            break
     try:
         os.unlink(prog)
     except OSError:
         pass
     for info in pyref_disagree:
-        if info[0] not in flagged:
-            raise HarnessError("C20: driver oracle accepted a result the Python reference rejects "
-                               "(ca=%s idx=%d len=%d ma=%s si4=%d bg=%d rc=%d got=%s; python: rc=%d %s)"
-                               % ((_short(ca),) + info))
+        raise HarnessError("C20: the driver's oracle and the Python reference disagree "
+                           "(ca=%s idx=%d len=%d ma=%s si4=%d bg=%d rc=%d got=%s; python: rc=%d %s; driver flagged=%d)"
+                           % ((_short(ca),) + info))
     cov["driver_deaths"] = crashes
+    cov["units_aborted_after_%d_deaths" % MAX_DEATHS_PER_UNIT] = aborted
     cov["pyref_checked"] = res["pyref_checked"]
     if ca_index % 40 == 3:
         samples.append({"cell_allocation": _short(ca), "cases": cov["evaluations"], "deaths": crashes})
@@ -545,6 +581,8 @@ def run(ctx):
         tot = {k: 0 for k in KNAMES}
         tot["driver_deaths"] = 0
         tot["pyref_checked"] = 0
+        ab = "units_aborted_after_%d_deaths" % MAX_DEATHS_PER_UNIT
+        tot[ab] = 0
         for r in ctx.pmap(_unit, items):
             for k, v in r["cov"].items():
                 if k == "max_list_len":
@@ -572,7 +610,7 @@ def run(ctx):
         planned = len(cas) * (nbm["all_main_cases"] + nbm["structural"] * 4) + nbm["full3_units"] * (1 << 24) * 2
         c["evaluations_planned"] = planned
         c["exhaustive"] = (tot["evaluations"] == planned)
-        if tot["evaluations"] != planned:
+        if tot["evaluations"] != planned and not tot[ab]:
             raise HarnessError("C20: %d cases executed, %d planned" % (tot["evaluations"], planned))
         c["rule"] = ("cases = (cell allocation) x (bitmap length 0..9) x (bitmap: all for len<=2, structural set for len 3..9"
                      + ("" if ctx.quick else ", pairs/triples, all 3-octet bitmaps for range allocations")
@@ -610,9 +648,9 @@ def replay(ctx, case):
                 ctx.violation("C20:len=%s:%s" % (kv["len"], kind), case,
                               "cell allocation %s, bitmap %s (len %s), si4=%s: %s" % (_short(ca), kv["ma"], kv["len"], kv["si4"], line[2:]))
             elif line.startswith("R "):
-                ok, info = _check_r(line, ca, res)
-                if not ok and not flagged:
-                    raise HarnessError("C20 replay: Python reference rejects what the driver accepted: %r" % (info,))
+                consistent, info = _check_r(line, ca, res)
+                if not consistent:
+                    raise HarnessError("C20 replay: driver oracle and Python reference disagree: %r" % (info,))
             elif line.startswith("{"):
                 done = True
         if not done:
